@@ -8,7 +8,7 @@ from .runner import Case
 from . import props_mixed
 from .props_alg import basis_args
 
-GROUP = dict(name='lin', sources=['h_lin.cpp'], repo_sources=['util/Pauli.C', 'util/Dirac.C'], driver='lin')
+GROUP = dict(name='lin', sources=['h_lin.cpp'], repo_sources=['util/Pauli.C', 'util/Dirac.C'], driver='lin', thread_mode=True)
 
 SH4 = [(r, c) for r in range(1, 5) for c in range(1, 5)]
 SHBIG = [(5, 5), (6, 6), (5, 6), (6, 5), (1, 6), (6, 1), (2, 5), (5, 2)]
